@@ -76,6 +76,10 @@ struct TaskSlot {
 
 pub struct Kernel {
     rng: Xoshiro,
+    /// side stream: choices that only some code paths make (the SIMD anchor) must not shift the main stream,
+    /// or paired worker processes (SIMD / scalar) would stop executing the same workload
+    rng2: Xoshiro,
+    pub result_digest: Option<u64>,
     replay: Option<Vec<u32>>,
     forced: Vec<u32>,
     pos: usize,
@@ -128,6 +132,7 @@ fn tape_log(v: u32) {
 }
 
 pub struct RunRecord {
+    pub result_digest: Option<u64>,
     pub tape: Vec<(&'static str, u32, u32)>,
     pub tape_hash: u64,
     pub sched_hash: u64,
@@ -144,12 +149,14 @@ pub struct RunRecord {
 pub fn begin_run(mode: Mode, tracing: bool) {
     TRACING.store(tracing, Ordering::SeqCst);
     CURRENT.store(MAIN, Ordering::SeqCst);
-    let (rng, replay, forced) = match mode {
-        Mode::Search { seed, forced } => (Xoshiro::new(seed), None, forced),
-        Mode::Replay { tape } => (Xoshiro::new(0), Some(tape), Vec::new()),
+    let (rng, rng2, replay, forced) = match mode {
+        Mode::Search { seed, forced } => (Xoshiro::new(seed), Xoshiro::new(seed ^ 0x5151_5151_a5a5_a5a5), None, forced),
+        Mode::Replay { tape } => (Xoshiro::new(0), Xoshiro::new(0), Some(tape), Vec::new()),
     };
     *lock() = Some(Kernel {
         rng,
+        rng2,
+        result_digest: None,
         replay,
         forced,
         pos: 0,
@@ -182,6 +189,7 @@ pub fn end_run() -> RunRecord {
         h = fnv_u64(h, ((*n as u64) << 32) | *v as u64);
     }
     RunRecord {
+        result_digest: k.result_digest,
         tape: k.record,
         tape_hash: h,
         sched_hash: k.sched_hash,
@@ -354,6 +362,31 @@ pub fn choose(n: usize, label: &'static str) -> usize {
         return 0;
     }
     with(|k| k.choose(n as u32, label, None)) as usize
+}
+
+/// A tape-recorded choice drawn from the *side* stream (see `Kernel::rng2`).
+pub fn choose_side(n: usize, label: &'static str) -> usize {
+    if n <= 1 {
+        return 0;
+    }
+    with(|k| {
+        let n = n as u32;
+        let v = if let Some(t) = &k.replay {
+            let v = t.get(k.pos).copied().unwrap_or(0);
+            if v >= n { 0 } else { v }
+        } else {
+            k.rng2.below(n)
+        };
+        k.pos += 1;
+        k.record.push((label, n, v));
+        tape_log(v);
+        v as usize
+    })
+}
+
+/// Digest of everything the run computed that must not depend on the process it ran in.
+pub fn set_result_digest(d: u64) {
+    with(|k| k.result_digest = Some(d));
 }
 
 /// An observed (uncontrolled) input: in search mode the observed value is recorded on the tape, in
